@@ -61,10 +61,14 @@ def scan_file(path, rel):
             if not (isinstance(p, ast.If) and p.test is n):
                 dev.append(f"{rel}:{n.lineno}: {NAME} is read outside a plain `if {NAME}:` test")
                 continue
-            if p.orelse:
-                dev.append(f"{rel}:{p.lineno}: `if {NAME}:` has an else branch (behaviour specific to checks-off)")
             bad = [s for s in p.body if not _check_call(s)]
-            if bad:
+            if p.orelse:
+                # `if A: g1; S; g2  else: S` is the modelled shape again once the guard calls are taken out:
+                # the statements the two branches share run under both settings
+                if [ast.dump(s) for s in bad] != [ast.dump(s) for s in p.orelse]:
+                    dev.append(f"{rel}:{p.lineno}: `if {NAME}:` has an else branch that differs from the "
+                               f"non-guard statements of the if branch (behaviour specific to one setting)")
+            elif bad:
                 dev.append(f"{rel}:{bad[0].lineno}: statement under `if {NAME}:` is not a call of a self.__check_* guard")
             fn = parents.get(p)
             if not (isinstance(fn, ast.FunctionDef) and _is_setter(fn)):
